@@ -394,8 +394,35 @@ def k_slash_static(base, routes):
     return False
 
 
+def seg_optional(s):
+    if s[0] == 2:
+        return True
+    if s[0] == 5:
+        return any(seg_optional(x) for x in s[1])
+    return False
+
+
+def opt_tail_seg(s):
+    """optionals, if any, are a top-level suffix of the segment tuple"""
+    if s[0] != 5:
+        return True
+    l = s[1]
+    for i, x in enumerate(l):
+        if seg_optional(x):
+            return all(y[0] == 2 for y in l[i:])
+    return True
+
+
+def opt_ok_route(r):
+    if r[1] == 0:
+        return opt_tail_seg(r[0])
+    return (not seg_optional(r[0])) and all(opt_ok_route(c) for c in r[2])
+
+
 def k_optional(routes):
-    return any(s[0] == 2 for s in tree_leaf_segs(routes))
+    """an OptionalParamSegment anywhere but in a top-level suffix of the segment tuple of a
+    route without children (= Router/Flat.v k_optional)"""
+    return not all(opt_ok_route(r) for r in routes)
 
 
 def k_dslash(path):
@@ -546,11 +573,36 @@ def gen_seg(rng, depth, wild_ok):
     return T(*items)
 
 
+def gen_plain_leaf(rng):
+    r = rng.random()
+    if r < 0.6:
+        return S(rng.choice(STATICS))
+    if r < 0.9:
+        return P(rng.choice(NAMES))
+    return U
+
+
+def gen_opt_tail(rng):
+    """a leaf-route segment whose optionals are a top-level suffix: the shape outside F-C14-c"""
+    pre = []
+    for _ in range(rng.choice([0, 1, 1, 2, 3])):
+        if rng.random() < 0.12:
+            pre.append(T(*[gen_plain_leaf(rng) for _ in range(rng.choice([1, 2, 3]))]))
+        else:
+            pre.append(gen_plain_leaf(rng))
+    opts = [O(rng.choice(NAMES)) for _ in range(rng.choice([1, 1, 2, 3]))]
+    if not pre and len(opts) == 1 and rng.random() < 0.5:
+        return opts[0]
+    return T(*(pre + opts))
+
+
 def gen_route(rng, depth, budget):
     """budget: mutable [remaining number of routes]"""
     budget[0] -= 1
     if depth > 0 and budget[0] > 0 and rng.random() < 0.45:
         seg = gen_seg(rng, 2, False)
+        if rng.random() < 0.5 and seg_optional(C.norm(seg)):
+            seg = gen_plain_leaf(rng)
         n = rng.choice([1, 1, 2, 2, 3, 4])
         kids = []
         for _ in range(n):
@@ -558,6 +610,8 @@ def gen_route(rng, depth, budget):
                 break
             kids.append(gen_route(rng, depth - 1, budget))
         return R(seg, kids)
+    if rng.random() < 0.3:
+        return R(gen_opt_tail(rng))
     return R(gen_seg(rng, 2, True))
 
 
@@ -678,6 +732,14 @@ FIXED = [
     [R(S("/"))],
     [R(T(O("x"),))],
     [R(T(S("a/b")))],
+    # optionals as a top-level suffix of a leaf route (outside F-C14-c)
+    [R(T(S("a"), O("x")))],
+    [R(T(S("a"), O("x"), O("y")))],
+    [R(O("x"))],
+    [R(T(O("x"), O("y"))), R(T(S("a"), S("b"), S("a")))],
+    [R(S("a"), [R(O("x")), R(T(S("b"), O("y")))]), R(T(P("z"), O("x"), O("y")))],
+    [R(S(""), [R(T(O("x"),)), R(S("a"))])],
+    [R(T(T(S("a"), P("x")), O("y"))), R(T(S("a"), S("b"), O("y"), O("z")))],
 ]
 
 
